@@ -63,6 +63,8 @@ type Contract struct {
 	PanicSrc   string
 	PanicLabel string
 	Pure       bool
+	Deterministic bool
+	DetLabel   string
 	Assumed    bool
 	NoInline   bool
 	Loops      map[int]*LoopSpec
@@ -79,6 +81,10 @@ type Contract struct {
 	funcName   string
 	Sig        *types.Signature
 	funcType   string // named func type for "functype" contracts
+	// Alts: further assumed contracts of the same (interface) method, written by different work areas for different
+	// dynamic types of an interface-typed parameter (each restricted by `requires typeof(p) == type(T)`); the call site
+	// picks the one whose accepted types contain the statically known dynamic type of the argument (see pickAlt)
+	Alts []*Contract
 	viaVar     bool   // contract for calls through a package-level variable of function type (funcType = its name)
 	closure    bool   // contract of an anonymous function (written Parent__N)
 	// Uninterp: the body is never inlined nor verified; calls use the contract only
@@ -110,6 +116,9 @@ type Axiom struct {
 	Src     string
 	PkgPath string
 	Imports map[string]string
+	// Props: `axiom[C14,C16] name: expr` — a background-theory axiom that is part of the check of these properties only
+	// (nil: every property). Keeps module-specific theories out of the proofs of unrelated properties.
+	Props map[string]bool
 }
 
 type SpecDB struct {
@@ -156,7 +165,7 @@ var closureNameRe = regexp.MustCompile(`^(.+)__(\d+)$`)
 var labelRe = regexp.MustCompile(`^\[([A-Za-z0-9_.,\- ]+)\]`)
 
 var clauseKw = map[string]bool{"requires": true, "ensures": true, "modifies": true, "panics": true, "pure": true,
-	"assumed": true, "invariant": true, "decreases": true, "noinline": true, "trusted": true, "at": true}
+	"assumed": true, "invariant": true, "decreases": true, "noinline": true, "trusted": true, "at": true, "deterministic": true}
 
 // parseSpecFile reads //@ lines of one file. pkgPath is the package whose scope resolves unqualified Go names
 // (for prelude files it is set by `//@ package "path"`).
@@ -339,6 +348,14 @@ func (db *SpecDB) parseSpecFile(file string, pkgPath string) {
 			}
 			cur, curLoop = nil, nil
 		case "axiom":
+			var axProps map[string]bool
+			if m := labelRe.FindStringSubmatch(rest); m != nil {
+				axProps = map[string]bool{}
+				for _, l := range strings.Split(m[1], ",") {
+					axProps[strings.TrimSpace(l)] = true
+				}
+				rest = strings.TrimSpace(rest[len(m[0]):])
+			}
 			i := strings.Index(rest, ":")
 			if i < 0 {
 				errf(en.ln, "axiom needs a name")
@@ -349,7 +366,7 @@ func (db *SpecDB) parseSpecFile(file string, pkgPath string) {
 				errf(en.ln, "%v", err)
 				continue
 			}
-			db.Axioms = append(db.Axioms, &Axiom{strings.TrimSpace(rest[:i]), e, rest[i+1:], pkgPath, copyMap(imports)})
+			db.Axioms = append(db.Axioms, &Axiom{strings.TrimSpace(rest[:i]), e, rest[i+1:], pkgPath, copyMap(imports), axProps})
 			cur, curLoop = nil, nil
 		case "func", "functype":
 			c := &Contract{File: file, Line: en.ln, PkgPath: pkgPath, Imports: copyMap(imports), SigSrc: body, Loops: map[int]*LoopSpec{}, Props: map[string]bool{}, CallAsserts: map[string][]*Clause{}, CallInvariants: map[string][]*Clause{}}
@@ -451,6 +468,11 @@ func (db *SpecDB) parseSpecFile(file string, pkgPath string) {
 				} else {
 					cur.CallAsserts[atSite] = append(cur.CallAsserts[atSite], &Clause{Kind: "assert", Label: label, Src: rest, E: e})
 				}
+			case "deterministic":
+				// deterministic [label]: no call of a node-local source (wall clock, random numbers, environment, runtime
+				// introspection) is reachable in the function's body or in anything inlined into it
+				cur.Deterministic = true
+				cur.DetLabel = label
 			case "pure":
 				cur.Pure = true
 			case "assumed":
@@ -876,6 +898,10 @@ func (db *SpecDB) resolveContracts(P *Program) {
 			continue
 		}
 		if prev, dup := db.Contracts[c.Key]; dup {
+			if prev.Assumed && c.Assumed && len(typeGuards(prev)) > 0 && len(typeGuards(c)) > 0 {
+				prev.Alts = append(prev.Alts, c)
+				continue
+			}
 			db.Errors = append(db.Errors, fmt.Sprintf("%s:%d: duplicate contract for %s (also %s:%d)", c.File, c.Line, c.Key, prev.File, prev.Line))
 			continue
 		}
@@ -997,4 +1023,34 @@ func loadSpecs(P *Program, dirs []string) *SpecDB {
 	}
 	db.resolveContracts(P)
 	return db
+}
+
+// typeGuards: the atoms `typeof(p) == type(T)` of the requires clauses of c, as (parameter name, type expression) pairs.
+func typeGuards(c *Contract) [][2]interface{} {
+	var out [][2]interface{}
+	var walk func(x Expr)
+	walk = func(x Expr) {
+		switch x := x.(type) {
+		case *EBin:
+			if x.Op == "==" {
+				if call, ok := x.X.(*ECall); ok {
+					if id, ok := call.Fun.(*EIdent); ok && id.Name == "typeof" && len(call.Args) == 1 {
+						if pn, ok := call.Args[0].(*EIdent); ok {
+							if tl, ok := x.Y.(*ETypeLit); ok {
+								out = append(out, [2]interface{}{pn.Name, tl.T})
+							}
+						}
+					}
+				}
+			}
+			walk(x.X)
+			walk(x.Y)
+		case *EUn:
+			walk(x.X)
+		}
+	}
+	for _, r := range c.Requires {
+		walk(r.E)
+	}
+	return out
 }
